@@ -1,12 +1,16 @@
 package main
 
 import (
+	"context"
 	"fmt"
 	"os"
+	"os/exec"
+	"path/filepath"
 	"runtime"
 	"strconv"
 	"strings"
 	"sync"
+	"sync/atomic"
 	"time"
 
 	"github.com/sarchlab/akita/v4/mem/vm"
@@ -74,6 +78,7 @@ type c12Sys struct {
 	nextID    int
 	submitted []string
 	early     []string // drains that returned with a non-empty queue
+	nparks    atomic.Int64
 }
 
 var c12Cur *c12Sys
@@ -105,6 +110,7 @@ func (s *c12Sys) yield(point string) {
 	}
 	g := &c12Gate{point: point, ch: make(chan struct{})}
 	s.parked[c12RoleOf(point)] = g
+	s.nparks.Add(1)
 	s.mu.Unlock()
 	<-g.ch
 }
@@ -125,7 +131,27 @@ func (h *c12EngineHook) Func(ctx sim.HookCtx) {
 	}
 }
 
+var c12Shared *c12Sys
+
+// c12NewSys prepares a system for one schedule. Building a driver costs ~30 ms (device memory
+// state), so the driver, engine and queue of the previous schedule are reused once they are
+// quiescent again (application script finished, runAsync in its select, no engine goroutine).
 func c12NewSys(rounds []int) *c12Sys {
+	if s := c12Shared; s != nil {
+		s.mu.Lock()
+		s.gating = true
+		s.parked = map[string]*c12Gate{}
+		s.rounds = rounds
+		s.appDone = false
+		s.appFault = ""
+		s.returned = 0
+		s.nextID = 0
+		s.submitted = nil
+		s.early = nil
+		s.mu.Unlock()
+		go c12AppThread(s)
+		return s
+	}
 	s := &c12Sys{gating: true, parked: map[string]*c12Gate{}, passed: map[string]int{}, rounds: rounds}
 	s.eng = sim.NewSerialEngine()
 	s.d = driver.MakeBuilder().WithEngine(s.eng).WithPageTable(vm.NewPageTable(12)).WithLog2PageSize(12).Build("Driver")
@@ -139,6 +165,7 @@ func c12NewSys(rounds []int) *c12Sys {
 	c12Cur = s
 	c12CurMu.Unlock()
 	s.d.Run()
+	c12Shared = s
 	go c12AppThread(s)
 	return s
 }
@@ -178,11 +205,17 @@ type c12G struct {
 	role  string
 }
 
-var c12StackBuf = make([]byte, 1<<20)
+var c12StackBuf = make([]byte, 1<<16)
 
 // c12Goroutines lists the role goroutines with their scheduler state.
 func c12Goroutines() []c12G {
+	tD := time.Now()
+	defer func() { c12DumpT += time.Since(tD); c12DumpN++ }()
 	n := runtime.Stack(c12StackBuf, true)
+	for n == len(c12StackBuf) {
+		c12StackBuf = make([]byte, 2*len(c12StackBuf))
+		n = runtime.Stack(c12StackBuf, true)
+	}
 	var out []c12G
 	for _, blk := range strings.Split(string(c12StackBuf[:n]), "\n\n") {
 		if !strings.HasPrefix(blk, "goroutine ") {
@@ -352,7 +385,12 @@ func (s *c12Sys) move(role string) (string, c12Obs, bool) {
 	g := s.parked[role]
 	delete(s.parked, role)
 	s.mu.Unlock()
+	before := s.nparks.Load()
 	close(g.ch)
+	// cheap wait first: most moves end with the role parking at its next gate
+	for i := 0; i < 3000 && s.nparks.Load() == before; i++ {
+		runtime.Gosched()
+	}
 	o, ok := s.settle()
 	if !ok {
 		return "unsettled", o, false
@@ -398,19 +436,51 @@ func (s *c12Sys) rescue() bool {
 }
 
 var c12Poisoned bool
+var c12T [3]time.Duration
+var c12DumpT time.Duration
+var c12DumpN int
 
+// teardown waits until the system is quiescent and reusable; a system that does not wind down is
+// dropped (and its driver terminated).
 func (s *c12Sys) teardown() {
+	deadline := time.Now().Add(3 * time.Second)
+	for {
+		gs := c12Goroutines()
+		ok := len(gs) == 1 && gs[0].role == "r" && strings.HasPrefix(gs[0].state, "select")
+		if ok && len(s.q.VerifCommandIDs()) == 0 {
+			if run, pend := s.d.VerifEngineFlags(); !run && !pend {
+				return
+			}
+		}
+		if time.Now().After(deadline) {
+			break
+		}
+		runtime.Gosched()
+	}
+	// not reusable
+	c12Shared = nil
 	c12CurMu.Lock()
 	c12Cur = nil
 	c12CurMu.Unlock()
 	withTimeout(2*time.Second, func() { s.d.Terminate() })
-	deadline := time.Now().Add(3 * time.Second)
+	deadline = time.Now().Add(3 * time.Second)
 	for len(c12Goroutines()) != 0 {
 		if time.Now().After(deadline) {
 			c12Poisoned = true
 			return
 		}
 		time.Sleep(100 * time.Microsecond)
+	}
+}
+
+// c12DropShared terminates the shared system (before the free-running stress part).
+func c12DropShared() {
+	if s := c12Shared; s != nil {
+		c12Shared = nil
+		c12CurMu.Lock()
+		c12Cur = nil
+		c12CurMu.Unlock()
+		withTimeout(2*time.Second, func() { s.d.Terminate() })
 	}
 }
 
@@ -428,6 +498,7 @@ func c12Exec(r *Run, kind string, rounds []int, choose func(i int, en []string) 
 	if c12Poisoned {
 		return nil, nil
 	}
+	tA := time.Now()
 	s := c12NewSys(rounds)
 	var outs []string
 	line := func() string {
@@ -487,6 +558,7 @@ func c12Exec(r *Run, kind string, rounds []int, choose func(i int, en []string) 
 			}
 		}
 	}
+	tB := time.Now()
 	// liveness oracle: from wherever the schedule stopped, the free-running system must finish
 	r.Checked("sched.finish")
 	if !s.freeRun(3 * time.Second) {
@@ -506,7 +578,11 @@ func c12Exec(r *Run, kind string, rounds []int, choose func(i int, en []string) 
 		r.Failf("C12.app-fault", line(), "application thread panicked: %s", s.appFault)
 	}
 	s.mu.Unlock()
+	tC := time.Now()
 	s.teardown()
+	c12T[0] += tB.Sub(tA)
+	c12T[1] += tC.Sub(tB)
+	c12T[2] += time.Since(tC)
 	r.Case(line(), strings.Join(outs, " "))
 	r.Count("sched." + kind)
 	r.CountN("sched.steps", len(taken))
@@ -550,9 +626,10 @@ func c12Schedules(r *Run, rng *Rng) {
 		depth  int
 		budget int
 	}
-	cfgs := []cfg{{[]int{1}, 9, 150}, {[]int{2}, 7, 80}, {[]int{1, 1}, 6, 80}, {[]int{0, 1}, 6, 40}}
+	// [1] and [2] are explored completely (about 110 and 250 gate-level interleavings)
+	cfgs := []cfg{{[]int{1}, 100, 1500}, {[]int{2}, 100, 1500}, {[]int{1, 1}, 100, 800}, {[]int{0, 1}, 100, 600}}
 	if thorough {
-		cfgs = []cfg{{[]int{1}, 14, 4000}, {[]int{2}, 14, 4000}, {[]int{1, 1}, 12, 3000}, {[]int{0, 1}, 10, 1000}, {[]int{2, 0, 1}, 9, 1000}}
+		cfgs = []cfg{{[]int{1}, 100, 1500}, {[]int{2}, 100, 1500}, {[]int{1, 1}, 100, 15000}, {[]int{0, 1}, 100, 10000}, {[]int{3}, 100, 3000}, {[]int{2, 0, 1}, 100, 3000}}
 	}
 	for _, c := range cfgs {
 		stack := [][]string{{}}
@@ -575,9 +652,9 @@ func c12Schedules(r *Run, rng *Rng) {
 	}
 
 	// 3. random deeper schedules (mostly movable roles, sometimes a blocked one)
-	nr := 150
+	nr := 400
 	if thorough {
-		nr = 6000
+		nr = 10000
 	}
 	for i := 0; i < nr && !c12Poisoned; i++ {
 		nrounds := rng.Range(1, 3)
@@ -625,23 +702,29 @@ func c12Stress(r *Run, rng *Rng, n int) {
 		line := fmt.Sprintf("stress threads=%d shared=%v seed=%d#%d", nthreads, shared, r.Seed, it)
 		var mu sync.Mutex
 		early := 0
+		pids := map[uint64]int{}
 		for t := 0; t < nthreads; t++ {
-			q := q0
-			if !shared && t > 0 {
-				ctx := ctx0
-				if rng.Bool() {
-					ctx = d.Init()
-				}
-				q = d.CreateCommandQueue(ctx)
-			}
+			ownCtx := rng.Bool()
 			roundsN := rng.Range(1, 30)
 			ks := make([]int, roundsN)
 			for i := range ks {
 				ks[i] = rng.Pick(0, 1, 1, 2, 5)
 			}
 			wg.Add(1)
-			go func(t int, q *driver.CommandQueue, ks []int) {
+			go func(t int, ks []int) {
 				defer wg.Done()
+				q := q0
+				if !shared && t > 0 {
+					// contexts and queues are created concurrently by the application threads
+					ctx := ctx0
+					if ownCtx {
+						ctx = d.Init()
+						mu.Lock()
+						pids[uint64(ctx.VerifPID())]++
+						mu.Unlock()
+					}
+					q = d.CreateCommandQueue(ctx)
+				}
 				for ri, k := range ks {
 					for i := 0; i < k; i++ {
 						d.Enqueue(q, &driver.NoopCommand{ID: fmt.Sprintf("%d.%d.%d", t, ri, i)})
@@ -653,7 +736,7 @@ func c12Stress(r *Run, rng *Rng, n int) {
 						mu.Unlock()
 					}
 				}
-			}(t, q, ks)
+			}(t, ks)
 		}
 		ok, _ := withTimeout(10*time.Second, wg.Wait)
 		r.Checked("stress.finish")
@@ -665,6 +748,12 @@ func c12Stress(r *Run, rng *Rng, n int) {
 		}
 		if early > 0 {
 			r.Failf("C12.drain-early-return", line, "%d drains returned with a non-empty private queue", early)
+		}
+		pids[uint64(ctx0.VerifPID())]++
+		for pid, n := range pids {
+			if n > 1 {
+				r.Failf("C12.context-pid-clash", line, "%d concurrently created contexts share PID %d", n, pid)
+			}
 		}
 		withTimeout(2*time.Second, func() { d.Terminate() })
 	}
@@ -690,33 +779,48 @@ func (t *c12Tracer) StepTask(task tracing.Task)       {}
 func (t *c12Tracer) AddMilestone(m tracing.Milestone) {}
 func (t *c12Tracer) EndTask(task tracing.Task)        { t.ends = append(t.ends, task.ID) }
 
-func c12QueueScenario(r *Run, rng *Rng, big bool) {
+type c12QEnv struct {
+	perCtx  []int
+	d       *driver.Driver
+	gpuPort sim.Port
+	cpPort  sim.Port
+	tr      *c12Tracer
+	qs      []*driver.CommandQueue
+}
+
+// c12NewQEnv builds a driver (fake engine, one fake GPU port) with 1-3 contexts and 1-4 queues.
+func c12NewQEnv(rng *Rng) *c12QEnv {
+	e := &c12QEnv{}
 	nctx := rng.Range(1, 3)
-	var perCtx []int
 	total := 0
 	for i := 0; i < nctx; i++ {
 		k := rng.Range(1, 2)
 		if total+k > 3 {
 			k = 1
 		}
-		perCtx = append(perCtx, k)
+		e.perCtx = append(e.perCtx, k)
 		total += k
 	}
-	eng := &fakeEngine{}
-	d := driver.MakeBuilder().WithEngine(eng).WithPageTable(vm.NewPageTable(12)).WithLog2PageSize(12).Build("Driver")
-	gpuPort := d.GetPortByName("GPU")
-	(&fakeConn{name: "c"}).PlugIn(gpuPort)
-	cpPort := sim.NewPort(nil, 16, 16, "FakeGPU.ToDriver")
-	d.RegisterGPU(cpPort, driver.DeviceProperties{CUCount: 4, DRAMSize: 1 << 30})
-	tr := &c12Tracer{}
-	tracing.CollectTrace(d, tr)
-	var qs []*driver.CommandQueue
-	for _, k := range perCtx {
-		ctx := d.Init()
+	e.d = driver.MakeBuilder().WithEngine(&fakeEngine{}).WithPageTable(vm.NewPageTable(12)).WithLog2PageSize(12).Build("Driver")
+	e.gpuPort = e.d.GetPortByName("GPU")
+	(&fakeConn{name: "c"}).PlugIn(e.gpuPort)
+	e.cpPort = sim.NewPort(nil, 16, 16, "FakeGPU.ToDriver")
+	e.d.RegisterGPU(e.cpPort, driver.DeviceProperties{CUCount: 4, DRAMSize: 1 << 30})
+	e.tr = &c12Tracer{}
+	tracing.CollectTrace(e.d, e.tr)
+	for _, k := range e.perCtx {
+		ctx := e.d.Init()
 		for j := 0; j < k; j++ {
-			qs = append(qs, d.CreateCommandQueue(ctx))
+			e.qs = append(e.qs, e.d.CreateCommandQueue(ctx))
 		}
 	}
+	return e
+}
+
+// c12QueueScenario runs one op scenario on the environment; it ends by answering and ticking
+// until every queue is empty again (these ops are part of the case), so the environment is reusable.
+func c12QueueScenario(r *Run, rng *Rng, big bool, env *c12QEnv) {
+	perCtx, d, gpuPort, cpPort, tr, qs := env.perCtx, env.d, env.gpuPort, env.cpPort, env.tr, env.qs
 	nq := len(qs)
 	idOf := map[string][2]int{} // command id -> (queue, number)
 	next := 0
@@ -769,57 +873,36 @@ func c12QueueScenario(r *Run, rng *Rng, big bool) {
 		qi := idOf[id]
 		events = append(events, fmt.Sprintf("s%d.%d", qi[0], qi[1]))
 	}
-	nops := rng.Range(4, 30)
-	if big {
-		nops = rng.Range(30, 120)
-	}
-	for k := 0; k < nops; k++ {
-		c := rng.Intn(100)
-		switch {
-		case c < 40:
-			qi := rng.Intn(nq)
-			next++
-			id := "c" + strconv.Itoa(next)
-			idOf[id] = [2]int{qi, next}
-			submitted[qi] = append(submitted[qi], next)
-			if rng.Chance(55) {
-				ops = append(ops, fmt.Sprintf("n:%d", qi))
-				d.Enqueue(qs[qi], &driver.NoopCommand{ID: id})
-			} else {
-				ops = append(ops, fmt.Sprintf("k:%d", qi))
-				d.Enqueue(qs[qi], &driver.LaunchKernelCommand{ID: id})
+	answer := func() string {
+		// canonical answer: per queue "queued ids[*]/started ids/completed ids"
+		var qstr []string
+		for i, q := range qs {
+			ids := q.VerifCommandIDs()
+			nums := make([]string, len(ids))
+			for j, id := range ids {
+				nums[j] = strconv.Itoa(idOf[id][1])
 			}
-		case c < 75:
-			ops = append(ops, "t")
-			d.Tick()
-			resolve()
-		default:
-			// answer one outstanding kernel (if any), then tick
-			var run []int
-			for i, q := range qs {
-				if q.IsRunning {
-					run = append(run, i)
+			s := strings.Join(nums, ",")
+			if q.IsRunning {
+				s += "*"
+			}
+			var st, dn []string
+			for _, e := range events {
+				if strings.HasPrefix(e[1:], strconv.Itoa(i)+".") {
+					num := e[strings.IndexByte(e, '.')+1:]
+					if e[0] == 's' {
+						st = append(st, num)
+					} else {
+						dn = append(dn, num)
+					}
 				}
 			}
-			if len(run) == 0 {
-				continue
-			}
-			qi := run[rng.Intn(len(run))]
-			req := reqOf[qi]
-			if req == nil {
-				continue
-			}
-			ops = append(ops, fmt.Sprintf("r:%d", qi), "t")
-			rsp := protocol.NewLaunchKernelRsp(cpPort.AsRemote(), gpuPort.AsRemote(), req.Meta().ID)
-			if err := gpuPort.Deliver(rsp); err != nil {
-				r.Failf("C12.harness.deliver", line(), "cannot deliver response")
-				return
-			}
-			delete(reqOf, qi)
-			d.Tick()
-			resolve()
+			qstr = append(qstr, s+"/"+strings.Join(st, ",")+"/"+strings.Join(dn, ","))
 		}
-		// collect requests the driver sent to the GPU
+		return strings.Join(qstr, " | ")
+	}
+	collect := func() {
+		// requests the driver sent to the GPU
 		for {
 			m := gpuPort.RetrieveOutgoing()
 			if m == nil {
@@ -841,32 +924,89 @@ func c12QueueScenario(r *Run, rng *Rng, big bool) {
 			}
 		}
 	}
-	// canonical answer: per queue "queued ids[*]/started ids/completed ids"
-	var qstr []string
-	for i, q := range qs {
-		ids := q.VerifCommandIDs()
-		nums := make([]string, len(ids))
-		for j, id := range ids {
-			nums[j] = strconv.Itoa(idOf[id][1])
+	tick := func() {
+		ops = append(ops, "t")
+		d.Tick()
+		resolve()
+		collect()
+	}
+	respond := func(qi int) bool {
+		req := reqOf[qi]
+		if req == nil {
+			return false
 		}
-		s := strings.Join(nums, ",")
-		if q.IsRunning {
-			s += "*"
+		ops = append(ops, fmt.Sprintf("r:%d", qi))
+		rsp := protocol.NewLaunchKernelRsp(cpPort.AsRemote(), gpuPort.AsRemote(), req.Meta().ID)
+		if err := gpuPort.Deliver(rsp); err != nil {
+			r.Failf("C12.harness.deliver", line(), "cannot deliver response")
+			return false
 		}
-		var st, dn []string
-		for _, e := range events {
-			if strings.HasPrefix(e[1:], strconv.Itoa(i)+".") {
-				num := e[strings.IndexByte(e, '.')+1:]
-				if e[0] == 's' {
-					st = append(st, num)
-				} else {
-					dn = append(dn, num)
-				}
+		delete(reqOf, qi)
+		tick()
+		return true
+	}
+	running := func() []int {
+		var run []int
+		for i, q := range qs {
+			if q.IsRunning && reqOf[i] != nil {
+				run = append(run, i)
 			}
 		}
-		qstr = append(qstr, s+"/"+strings.Join(st, ",")+"/"+strings.Join(dn, ","))
+		return run
 	}
-	r.Case(line(), strings.Join(qstr, " | "))
+	nops := rng.Range(4, 30)
+	if big {
+		nops = rng.Range(30, 120)
+	}
+	for k := 0; k < nops; k++ {
+		c := rng.Intn(100)
+		switch {
+		case c < 40:
+			qi := rng.Intn(nq)
+			next++
+			id := "c" + strconv.Itoa(next)
+			idOf[id] = [2]int{qi, next}
+			submitted[qi] = append(submitted[qi], next)
+			if rng.Chance(55) {
+				ops = append(ops, fmt.Sprintf("n:%d", qi))
+				d.Enqueue(qs[qi], &driver.NoopCommand{ID: id})
+			} else {
+				ops = append(ops, fmt.Sprintf("k:%d", qi))
+				d.Enqueue(qs[qi], &driver.LaunchKernelCommand{ID: id})
+			}
+		case c < 75:
+			tick()
+		default:
+			if run := running(); len(run) > 0 {
+				respond(run[rng.Intn(len(run))])
+			}
+		}
+	}
+	// observe the state reached by the random part, then flush
+	r.Case(line(), answer())
+	for k := 0; k < 2000; k++ {
+		empty := true
+		for _, q := range qs {
+			if q.NumCommand() != 0 {
+				empty = false
+			}
+		}
+		if empty {
+			break
+		}
+		if run := running(); len(run) > 0 {
+			respond(run[0])
+		} else {
+			tick()
+		}
+	}
+	for i, q := range qs {
+		if q.NumCommand() != 0 || q.IsRunning {
+			r.Failf("C12.fifo.never-drains", line(), "queue %d still holds %v (IsRunning=%v) after answering every kernel and 2000 ticks", i, q.VerifCommandIDs(), q.IsRunning)
+			env.d = nil // not reusable
+		}
+	}
+	r.Case(line(), answer())
 	r.Count(fmt.Sprintf("queues.n%d", nq))
 	// oracles (independent of the model): per queue, starts and completions are in submission order,
 	// alternate strictly (one at a time), and remaining = submitted minus completed
@@ -924,21 +1064,91 @@ func c12QueueScenario(r *Run, rng *Rng, big bool) {
 	}
 }
 
+// c12RaceRun (thorough tier) rebuilds the harness with the race detector and runs the free-running
+// stress scenario in a child process; any report is an oracle failure.
+func c12RaceRun(r *Run, n int) {
+	exe, err := os.Executable()
+	if err != nil {
+		r.Note("C12: race run skipped: %v", err)
+		return
+	}
+	dir := filepath.Dir(filepath.Dir(exe))
+	out := filepath.Join(dir, "bin", "harness_race")
+	ctx, cancel := context.WithTimeout(context.Background(), 15*time.Minute)
+	defer cancel()
+	b := exec.CommandContext(ctx, "go", "build", "-race", "-tags", "verif", "-o", out, ".")
+	b.Dir = dir
+	if o, err := b.CombinedOutput(); err != nil {
+		r.Note("C12: `go build -race` unavailable, data-race oracle skipped: %v %s", err, strings.TrimSpace(string(o)))
+		return
+	}
+	ctx2, cancel2 := context.WithTimeout(context.Background(), 5*time.Minute)
+	defer cancel2()
+	c := exec.CommandContext(ctx2, out, "child", "c12race", strconv.FormatUint(r.Seed, 10), strconv.Itoa(n))
+	c.Env = append(os.Environ(), "GORACE=halt_on_error=0")
+	o, err := c.CombinedOutput()
+	r.Checked("race.stress")
+	text := string(o)
+	line := fmt.Sprintf("race-stress seed=%d n=%d", r.Seed, n)
+	if i := strings.Index(text, "WARNING: DATA RACE"); i >= 0 {
+		rep := text[i:]
+		if len(rep) > 1500 {
+			rep = rep[:1500]
+		}
+		r.Failf("C12.data-race", line, "%d race report(s); first: %s", strings.Count(text, "WARNING: DATA RACE"), strings.Join(strings.Fields(rep), " "))
+	} else if err != nil || !strings.Contains(text, "c12race ok") {
+		r.Failf("C12.race-run", line, "race-instrumented stress run failed: %v %s", err, strings.Join(strings.Fields(text), " "))
+	} else {
+		r.Note("C12: race-instrumented stress run (%d systems): no data race reported", n)
+	}
+}
+
+func init() {
+	childFuncs["c12race"] = func(args []string) {
+		seed, _ := strconv.ParseUint(args[0], 10, 64)
+		n, _ := strconv.Atoi(args[1])
+		dir, _ := os.MkdirTemp("", "c12race")
+		defer os.RemoveAll(dir)
+		r := NewRun("C12", "race", seed, dir)
+		c12Stress(r, NewRng(seed), n)
+		if len(r.fails) > 0 {
+			fmt.Printf("c12race failures: %v\n", r.fails[0])
+			os.Exit(1)
+		}
+		fmt.Println("c12race ok")
+	}
+}
+
 func runC12(r *Run, rng *Rng, replay string) {
 	thorough := r.Tier == "thorough"
 	driver.VerifYield = c12Yield
+	if os.Getenv("C12_ONLY") == "sched" {
+		t0 := time.Now()
+		c12Schedules(r, rng)
+		fmt.Fprintf(os.Stderr, "schedules: %v for %d steps; gated %v free-run %v teardown %v\n", time.Since(t0), r.Dist["sched.steps"], c12T[0], c12T[1], c12T[2])
+		fmt.Fprintf(os.Stderr, "dumps: %d taking %v\n", c12DumpN, c12DumpT)
+		return
+	}
 	c12SkeletonCases(r)
 	nq := 300
 	if thorough {
 		nq = 20000
 	}
+	var qenv *c12QEnv
 	for i := 0; i < nq; i++ {
-		c12QueueScenario(r, rng, i%10 == 0)
+		if qenv == nil || qenv.d == nil || i%25 == 0 {
+			qenv = c12NewQEnv(rng)
+		}
+		c12QueueScenario(r, rng, i%10 == 0, qenv)
 	}
 	c12Schedules(r, rng)
+	c12DropShared()
 	ns := 30
 	if thorough {
 		ns = 600
 	}
 	c12Stress(r, rng, ns)
+	if thorough {
+		c12RaceRun(r, 300)
+	}
 }
